@@ -163,6 +163,7 @@ End Keep.
 (* ================= noise steps ================= *)
 Section Noise.
 Variable cap : nat.
+Variable pol : policy.
 Variable ep : N.
 Variable lam : fev -> N.
 Variable vals : list (N * N).
@@ -180,11 +181,11 @@ Notation cache_inv := (cache_inv vals).
 Definition is_build (o : op) : bool := match o with OpB _ => true | _ => false end.
 
 (* what the theorem asks of an operation that is not the Build / Process of a valid event *)
-Definition noise_ok (i : inst) (o : op) : Prop :=
+Definition noise_ok_p (i : inst) (o : op) : Prop :=
   match o with
   | OpB _ => True                                                   (* any speculative Build *)
   | OpP x => J (a_id x) /\
-             match fst (fst (step cap [] sample i o)) with
+             match fst (fst (step cap pol sample i o)) with
              | ObsSkip _ => True | ObsP (Some EWrongFrame) _ _ _ => True | _ => False end
   | OpR | OpM _ | OpG _ | OpQ _ _ | OpV => True
   | OpReset _ _ => False
@@ -217,7 +218,7 @@ Qed.
 Lemma set_ctr_same st : set_ctr st (l_ctr st) = st.
 Proof. destruct st; reflexivity. Qed.
 
-Lemma build_alive i T Dr B x : Sim i T Dr B -> l_ctr (i_st i) + 1 <= K -> snd (step cap [] sample i (OpB x)) = false.
+Lemma build_alive i T Dr B x : Sim i T Dr B -> l_ctr (i_st i) + 1 <= K -> snd (step cap pol sample i (OpB x)) = false.
 Proof.
   intros [W [S [[C CI I0 N0] AV]] FR CT PR SG CH] Hc. cbn [step].
   destruct (guard i x false) as [w|] eqn:G; [reflexivity|].
@@ -251,16 +252,16 @@ Proof.
   inversion BE; subst. reflexivity.
 Qed.
 
-Lemma noise_step i T Dr B o : Sim i T Dr B -> few_forkers vals T -> noise_ok i o ->
+Lemma noise_step i T Dr B o : Sim i T Dr B -> few_forkers vals T -> noise_ok_p i o ->
   (is_build o = true -> l_ctr (i_st i) + 1 <= K) ->
-  exists ob i', step cap [] sample i o = (ob, i', false) /\ Sim i' T Dr B /\
+  exists ob i', step cap pol sample i o = (ob, i', false) /\ Sim i' T Dr B /\
     l_ctr (i_st i') <= l_ctr (i_st i) + (if is_build o then 1 else 0).
 Proof.
-  intros HS Hff OK HB. destruct o as [x|x| |ep1 raw|id|f|a b|]; cbn [noise_ok is_build] in OK, HB |- *.
+  intros HS Hff OK HB. destruct o as [x|x| |ep1 raw|id|f|a b|]; cbn [noise_ok_p is_build] in OK, HB |- *.
   - (* rejected / skipped Process *)
     destruct OK as [Jx OK]. cbn [step] in OK |- *.
     destruct (guard i x true) as [w|]; [exists (ObsSkip w), i; split; [reflexivity | split; [exact HS | lia]]|].
-    destruct (process cap (policy_fn []) (aput (a_id x) x (i_es i)) (i_st i) x) as [[rr bl] st'] eqn:PE.
+    destruct (process cap (policy_fn pol) (aput (a_id x) x (i_es i)) (i_st i) x) as [[rr bl] st'] eqn:PE.
     destruct rr as [u|err]; cbn [fst] in OK; [destruct OK|].
     destruct err; try destruct OK.
     destruct (process_reject_cache cap _ _ _ _ _ _ PE) as [-> [c' [-> Kp]]].
@@ -279,7 +280,7 @@ Proof.
     apply (Sim_update i T Dr B (l_ctr (i_st i) + 1) c' _ HS); [lia | apply HB; reflexivity | | auto].
     apply (keeps_cache_inv i T Dr B _ c' J HS); [lia|]. intros a b r0 H. destruct (Kp a b r0 H) as [Old|Tm]; [left; exact Old | right; left; exact Tm].
   - (* restart *)
-    destruct (restart_step cap ep lam vals Hvals J K HJ [] (fun _ => None) (fun _ _ _ _ => eq_refl) i T Dr B HS Hff) as [i' [E [HS' C0]]].
+    destruct (restart_step cap ep lam vals Hvals J K HJ pol (fun f => policy_fn pol ep f 0 [] []) (fun _ _ _ _ => eq_refl) i T Dr B HS Hff) as [i' [E [HS' C0]]].
     eexists _, i'. split; [exact E|]. split; [exact HS' | lia].
   - destruct OK.
   - (* merged clock probe *)
@@ -304,6 +305,7 @@ Proof.
     cbn [step]. eexists _, i. split; [reflexivity | split; [exact HS | lia]].
 Qed.
 End Noise.
+Definition noise_ok (cap : nat) (J : N -> Prop) := noise_ok_p cap [] J.
 
 (* ================= runs with noise ================= *)
 Record slot := { s_pre : list op; s_ev : fev; s_mid : list op }.
@@ -331,6 +333,7 @@ Proof. unfold count_builds. rewrite filter_app, app_length. reflexivity. Qed.
 
 Section NoiseRun.
 Variable cap : nat.
+Variable pol : policy.
 Variable ep : N.
 Variable lam : fev -> N.
 Variable vals : list (N * N).
@@ -345,25 +348,25 @@ Notation Sim := (Sim ep lam vals J K).
 Notation ae := (to_aevent ep lam vals).
 
 (* every operation outside the mask is acceptable noise in the state in which it is executed *)
-Fixpoint ok_from (i : inst) (ops : list op) (mask : list bool) : Prop :=
+Fixpoint ok_from_p (i : inst) (ops : list op) (mask : list bool) : Prop :=
   match ops, mask with
-  | o :: t, m :: mt => (m = false -> noise_ok cap J i o) /\ ok_from (snd (fst (step cap [] sample i o))) t mt
+  | o :: t, m :: mt => (m = false -> noise_ok_p cap pol J i o) /\ ok_from_p (snd (fst (step cap pol sample i o))) t mt
   | _, _ => True
   end.
 
 Lemma noise_list T Dr B : few_forkers vals T -> forall ns i rest mrest, Sim i T Dr B ->
-  ok_from i (ns ++ rest) (repeat false (length ns) ++ mrest) ->
+  ok_from_p i (ns ++ rest) (repeat false (length ns) ++ mrest) ->
   l_ctr (i_st i) + N.of_nat (count_builds ns) <= K ->
-  exists i' os, run cap [] sample i (ns ++ rest) = os ++ run cap [] sample i' rest /\ length os = length ns /\
-    Sim i' T Dr B /\ ok_from i' rest mrest /\ l_ctr (i_st i') <= l_ctr (i_st i) + N.of_nat (count_builds ns).
+  exists i' os, run cap pol sample i (ns ++ rest) = os ++ run cap pol sample i' rest /\ length os = length ns /\
+    Sim i' T Dr B /\ ok_from_p i' rest mrest /\ l_ctr (i_st i') <= l_ctr (i_st i) + N.of_nat (count_builds ns).
 Proof.
   intros Hff. induction ns as [|o ns IH]; intros i rest mrest HS OK HB.
   - exists i, []. cbn [app length repeat] in *. split; [reflexivity|]. split; [reflexivity|]. split; [exact HS|]. split; [exact OK|].
     unfold count_builds. cbn [filter length]. lia.
-  - cbn [app length repeat ok_from] in OK. destruct OK as [OK1 OK2].
+  - cbn [app length repeat ok_from_p] in OK. destruct OK as [OK1 OK2].
     assert (HBo : is_build o = true -> l_ctr (i_st i) + 1 <= K).
     { intros Eb. unfold count_builds in HB. cbn [filter] in HB. rewrite Eb in HB. cbn [length] in HB. lia. }
-    destruct (noise_step cap ep lam vals Hvals J K HJ HK i T Dr B o HS Hff (OK1 eq_refl) HBo) as [ob [i1 [E [HS1 C1]]]].
+    destruct (noise_step cap pol ep lam vals Hvals J K HJ HK i T Dr B o HS Hff (OK1 eq_refl) HBo) as [ob [i1 [E [HS1 C1]]]].
     rewrite E in OK2. cbn [fst snd] in OK2.
     assert (HB1 : l_ctr (i_st i1) + N.of_nat (count_builds ns) <= K).
     { unfold count_builds in HB |- *. cbn [filter] in HB. destruct (is_build o); cbn [length] in HB; lia. }
@@ -373,12 +376,31 @@ Proof.
     unfold count_builds in *. cbn [filter]. destruct (is_build o); cbn [length]; lia.
 Qed.
 
+End NoiseRun.
+Definition ok_from (cap : nat) (J : N -> Prop) := ok_from_p cap [] J.
+
+Section NoiseRun0.
+Variable cap : nat.
+Variable ep : N.
+Variable lam : fev -> N.
+Variable vals : list (N * N).
+Hypothesis Hvals : vals_ok vals.
+Variable J : N -> Prop.
+Variable K : N.
+Hypothesis HJ : forall a, J a -> id_fresh K a.
+Hypothesis HK : K < 2 ^ 192.
+
+Notation nv := (length vals).
+Notation Sim := (Sim ep lam vals J K).
+Notation ae := (to_aevent ep lam vals).
+Notation noise_list := (noise_list cap [] ep lam vals Hvals J K HJ HK).
+
 Lemma sched_sim : forall sc i T Dr B tl, Sim i T Dr B ->
   codes_ok (snd (add_events vals T (map s_ev sc))) ->
   (forall e, In e (map s_ev sc) -> id_fresh K (eid (fe e)) /\ ~ J (eid (fe e))) ->
   few_forkers vals (fst (add_events vals T (map s_ev sc))) ->
   l_ctr (i_st i) + N.of_nat (count_builds (sched_ops_ep ep lam vals sc tl)) <= K ->
-  ok_from i (sched_ops_ep ep lam vals sc tl) (sched_mask sc tl) ->
+  ok_from_p cap [] J i (sched_ops_ep ep lam vals sc tl) (sched_mask sc tl) ->
   exists i' B', render (pick (sched_mask sc tl) (run cap [] sample i (sched_ops_ep ep lam vals sc tl))) = (snd (add_events vals T (map s_ev sc)), B') /\
     Sim i' (fst (add_events vals T (map s_ev sc))) (rev (map s_ev sc) ++ Dr) (B ++ B').
 Proof.
@@ -414,13 +436,13 @@ Proof.
     (* noise before the Build *)
     destruct (noise_list T Dr B HffT (s_pre s) i _ _ HS OK ltac:(lia)) as [i0 [os0 [ER0 [L0 [HS0 [OK0 C0]]]]]].
     (* the Build *)
-    cbn [ok_from] in OK0. destruct OK0 as [_ OK0].
+    cbn [ok_from_p] in OK0. destruct OK0 as [_ OK0].
     destruct (build_step cap ep lam vals Hvals J K HJ i0 T Dr B e HS0 PK CR EW NL FO ltac:(lia) ltac:(lia)) as [i1 [EB [HS1 Ct1]]].
     rewrite EB in OK0. cbn [fst snd] in OK0.
     (* noise between the Build and the Process *)
     destruct (noise_list T Dr B HffT (s_mid s) i1 _ _ HS1 OK0 ltac:(lia)) as [i2 [os2 [ER2 [L2 [HS2 [OK2 C2]]]]]].
     (* the Process *)
-    cbn [ok_from] in OK2. destruct OK2 as [_ OK2].
+    cbn [ok_from_p] in OK2. destruct OK2 as [_ OK2].
     destruct (process_step cap ep lam vals Hvals J K i2 T Dr B e HS2 (proj1 (Hf e (or_introl eq_refl))) (proj2 (Hf e (or_introl eq_refl))) PK NL CR EW FO Hff1)
       as [bl [i3 [EP [HS3 Ct3]]]].
     rewrite EP in OK2. cbn [fst snd] in OK2.
@@ -437,7 +459,7 @@ Proof.
       cbn [render]. rewrite ER, Hh. reflexivity.
     + cbn [rev]. rewrite <- !app_assoc. cbn [app]. rewrite <- app_assoc in HS'. exact HS'.
 Qed.
-End NoiseRun.
+End NoiseRun0.
 
 (* ================= the theorem ================= *)
 Definition noise_side (D : list fev) (J : N -> Prop) (K : N) (ops : list op) : Prop :=
